@@ -95,7 +95,7 @@ func c05R1(p *Prog, r *Report) {
 			if cc == nil || !strings.HasPrefix(CalleeName(cc), "encoding/json.Marshal") {
 				return
 			}
-			if mi, ok := cc.Args[0].(*ssa.MakeInterface); ok && mi.X == ssa.Value(wh.Params[0]) {
+			if mi, ok := cc.Args[0].(*ssa.MakeInterface); ok && resolveCell(mi.X) == ssa.Value(wh.Params[0]) {
 				marshals = true
 			}
 		})
@@ -491,6 +491,11 @@ func slotFromView(src *ssa.Call, sizes types.Sizes) (recSlot, bool) {
 	return s, true
 }
 
+func isEmptyMake(m *ssa.MakeSlice) bool {
+	k, isC := constInt(m.Len)
+	return isC && k == 0
+}
+
 // recordLayout extracts the ordered parts of a record from the writer method fn.  Forms understood:
 // (1) make([]byte, 0, n) followed by a chain of append(record, getbytes.FromX(v)...);
 // (2) make([]byte, n) filled by copy(record[a:b], getbytes.FromX(v)) at constant offsets;
@@ -501,8 +506,15 @@ func recordLayout(fn *ssa.Function) *recLayout {
 		Instrs(f, func(in ssa.Instruction) {
 			if m, ok := in.(*ssa.MakeSlice); ok {
 				if b, ok := m.Type().Underlying().(*types.Slice).Elem().Underlying().(*types.Basic); ok && b.Kind() == types.Uint8 {
-					mk = m
 					n++
+					// the record buffer: the empty one that is appended to, else the first one made
+					if k, isC := constInt(m.Len); isC && k == 0 {
+						if mk == nil || !isEmptyMake(mk) {
+							mk = m
+						}
+					} else if mk == nil {
+						mk = m
+					}
 				}
 			}
 		})
@@ -531,15 +543,35 @@ func recordLayout(fn *ssa.Function) *recLayout {
 			L.path = []ssa.Instruction{helperCall}
 		}
 	}
-	if mk == nil {
+	var start ssa.Value
+	if mk != nil {
+		start = mk
+	} else {
+		// a buffer kept between calls and emptied for this record: buf[:0]
+		Instrs(fn, func(in ssa.Instruction) {
+			sl, ok := in.(*ssa.Slice)
+			if !ok || sl.High == nil {
+				return
+			}
+			if k, isC := constInt(sl.High); !isC || k != 0 {
+				return
+			}
+			if st, ok := sl.Type().Underlying().(*types.Slice); ok && types.Identical(st.Elem(), types.Typ[types.Uint8]) {
+				start = sl
+			}
+		})
+	}
+	if start == nil {
 		L.unknown = "no byte buffer is made for the record in " + FuncName(fn) + " or a helper it calls"
 		return L
 	}
 	var last ssa.Value
-	if c, ok := mk.Len.(*ssa.Const); ok && c.Int64() == 0 {
+	if mk == nil || isEmptyMake(mk) {
 		// form 1
-		L.sizeHint = mk.Cap
-		cur := ssa.Value(mk)
+		if mk != nil {
+			L.sizeHint = mk.Cap
+		}
+		cur := start
 		for {
 			var next *ssa.Call
 			n := 0
@@ -564,6 +596,11 @@ func recordLayout(fn *ssa.Function) *recLayout {
 				s, ok = slotFromView(src, sizes)
 			}
 			if !ok {
+				if pad, isMk := next.Call.Args[1].(*ssa.MakeSlice); isMk {
+					L.problems = append(L.problems, "a block of zero bytes ("+pad.Len.String()+" of them) is appended to the record: padding is not part of the documented layout, readers that size records from the header mis-frame every later record")
+					cur = next
+					continue
+				}
 				L.unknown = "a record part is appended from something other than a getbytes view"
 				break
 			}
@@ -835,8 +872,12 @@ func c05R3(p *Prog, r *Report) {
 		if nvar == 1 {
 			last := slots[len(slots)-1]
 			wantCap := polyConst(int64(fixed)).Add(hpc.lenOf(last.orig).Mul(polyConst(int64(last.elem))))
-			r.Check(capHint != nil && hpc.Of(capHint).Equal(wantCap), "C05.R3", name+": declared record size equals the parts written", p.Pos(fn.Pos()), wantCap.String(),
-				fmt.Sprintf("the record buffer is sized %s but the parts add up to %s", hpc.Of(capHint), wantCap))
+			if capHint == nil {
+				r.OK("C05.R3", name+": declared record size equals the parts written", p.Pos(fn.Pos()), "the buffer is kept between calls and emptied for each record (buf[:0]); append sizes it, parts add up to "+wantCap.String())
+			} else {
+				r.Check(hpc.Of(capHint).Equal(wantCap), "C05.R3", name+": declared record size equals the parts written", p.Pos(fn.Pos()), wantCap.String(),
+					fmt.Sprintf("the record buffer is sized %s but the parts add up to %s", hpc.Of(capHint), wantCap))
+			}
 		}
 		foreign := false
 		for _, s := range slots {
